@@ -32,51 +32,61 @@ def floodShift (seg : Seg) (adj : P) : Nat → Nat → St → St
     | some b => floodShift seg adj fuel b st
     | none => st
 
+/-- the slot's own origin: `(result so far, origin, clusterMin)` from the base point – the first part of `Slot::finalise` -/
+def place (sl : Slot) (k : Rat) (base : P) (cm : Rat) : P × P × Rat :=
+  let shift : P := (k * sl.shiftX, k * sl.shiftY)
+  let tAdvance : Rat := k * sl.advX
+  let pos : P := P.add base shift
+  match sl.parent with
+  | none => ((base.1 + tAdvance, base.2 + k * sl.advY), pos, pos.1)
+  | some _ =>
+    let pos : P := (pos.1 + k * (sl.attX - sl.withX), pos.2 + k * (sl.attY - sl.withY))
+    let tAdv : Rat := if sl.advX ≥ 1 then pos.1 + tAdvance - shift.1 else 0          -- `m_advance.x >= 0.5f` on an integer
+    let cm := if (sl.advX ≥ 1 ∨ pos.1 < 0) ∧ pos.1 < cm then pos.1 else cm
+    ((tAdv, 0), pos, cm)
+
+/-- `if (cond && tRes.x > res.x) res = tRes;` -/
+def pickMax (cond : Bool) (res : P) (r : P × St) : P × St :=
+  if cond ∧ r.1.1 > res.1 then (r.1, r.2) else (res, r.2)
+
+/-- the end of `Slot::finalise` for a base: a cluster that reaches left of its base point is moved right -/
+def adjustCluster (seg : Seg) (sl : Slot) (s : Nat) (base : P) (res : P) (st : St) : P × St :=
+  if sl.parent.isNone ∧ st.clusterMin < base.1 then
+    let adj : P := ((st.getPos s).1 - st.clusterMin, 0)
+    let st := st.setPos s (P.add (st.getPos s) adj)
+    let st := match sl.child with
+      | some c => floodShift seg adj 101 c st
+      | none => st
+    (P.add res adj, st)
+  else (res, st)
+
+/-- the recursion of `Slot::finalise` into the first child: the child is positioned from this slot's origin -/
+def childStage (seg : Seg) (sl : Slot) (s : Nat) (res pos : P) (st : St) (rec : Nat → P → St → P × St) : P × St :=
+  match sl.child with
+  | some c =>
+    if c ≠ s ∧ (seg.get c).parent = some s then
+      pickMax (sl.parent.isNone || decide (sl.advX ≥ 1)) res (rec c pos st)
+    else (res, st)
+  | none => (res, st)
+
+/-- the recursion of `Slot::finalise` into the next sibling (attached slots only): positioned from the same base point -/
+def siblingStage (seg : Seg) (sl : Slot) (s : Nat) (base : P) (r1 : P × St) (rec : Nat → P → St → P × St) : P × St :=
+  match sl.parent, sl.sibling with
+  | some p, some b =>
+    if b ≠ s ∧ (seg.get b).parent = some p then pickMax true r1.1 (rec b base r1.2)
+    else r1
+  | _, _ => r1
+
 /-- `Slot::finalise(seg, font, base, bbox, 0, clusterMin, rtl = false, isFinal = true, depth)` -/
 def finalise (seg : Seg) (k : Rat) : Nat → Nat → P → St → P × St
   | 0, _, _, st => ((0, 0), st)
   | fuel + 1, s, base, st =>
     let sl := seg.get s
-    let shift : P := (k * sl.shiftX, k * sl.shiftY)
-    let tAdvance : Rat := k * sl.advX
-    let pos : P := P.add base shift
-    -- base or attached
-    let (res, pos, st) : P × P × St :=
-      match sl.parent with
-      | none => ((base.1 + tAdvance, base.2 + k * sl.advY), pos, { st with clusterMin := pos.1 })
-      | some _ =>
-        let pos : P := (pos.1 + k * (sl.attX - sl.withX), pos.2 + k * (sl.attY - sl.withY))
-        let tAdv : Rat := if sl.advX ≥ 1 then pos.1 + tAdvance - shift.1 else 0          -- `m_advance.x >= 0.5f` on an integer
-        let st := if (sl.advX ≥ 1 ∨ pos.1 < 0) ∧ pos.1 < st.clusterMin then { st with clusterMin := pos.1 } else st
-        ((tAdv, 0), pos, st)
-    let st := st.setPos s pos
-    -- children
-    let (res, st) : P × St :=
-      match sl.child with
-      | some c =>
-        if c ≠ s ∧ (seg.get c).parent = some s then
-          let r := finalise seg k fuel c pos st
-          if (sl.parent.isNone ∨ sl.advX ≥ 1) ∧ r.1.1 > res.1 then (r.1, r.2) else (res, r.2)
-        else (res, st)
-      | none => (res, st)
-    -- siblings (only for attached slots)
-    let (res, st) : P × St :=
-      match sl.parent, sl.sibling with
-      | some p, some b =>
-        if b ≠ s ∧ (seg.get b).parent = some p then
-          let r := finalise seg k fuel b base st
-          if r.1.1 > res.1 then (r.1, r.2) else (res, r.2)
-        else (res, st)
-      | _, _ => (res, st)
-    -- a cluster that reaches left of its base point is moved right
-    if sl.parent.isNone ∧ st.clusterMin < base.1 then
-      let adj : P := ((st.getPos s).1 - st.clusterMin, 0)
-      let st := st.setPos s (P.add (st.getPos s) adj)
-      let st := match sl.child with
-        | some c => floodShift seg adj 101 c st
-        | none => st
-      (P.add res adj, st)
-    else (res, st)
+    let pl := place sl k base st.clusterMin
+    let st := ({ st with clusterMin := pl.2.2 } : St).setPos s pl.2.1
+    let r1 := childStage seg sl s pl.1 pl.2.1 st (fun c b t => finalise seg k fuel c b t)
+    let r2 := siblingStage seg sl s base r1 (fun c b t => finalise seg k fuel c b t)
+    adjustCluster seg sl s base r2.1 r2.2
 
 /-- `Segment::positionSlots(font, first, last, isRtl = false)` over the stream `l`: origins and the run's advance -/
 def positionSlots (seg : Seg) (k : Rat) (l : List Nat) : P × St :=
